@@ -110,4 +110,146 @@ theorem sign_only_owner (cfg : Config) (derive : Bytes → Addr) (ops : List Op)
     exact this ops State.init (init_inv derive)
   exact (getWalletFile_sound derive _ addr load hinv).2 key h
 
+/-! ### the account list -/
+
+/-- the discovery invariant: the list has no duplicates and holds exactly the addresses of the file map -/
+def ListInv (st : State) : Prop :=
+  st.addressList.Nodup ∧ ∀ a, a ∈ st.addressList ↔ (mapLookup st.addressToFileMap a).isSome = true
+
+theorem mapLookup_mapSet (m : List (Addr × String)) (a : Addr) (v : String) (a' : Addr) :
+    mapLookup (mapSet m a v) a' = if a = a' then some v else mapLookup m a' := by
+  unfold mapLookup mapSet
+  rw [List.find?_cons]
+  by_cases e : a = a'
+  · subst e; simp
+  · have e' : ((a, v).1 == a') = false := by simpa using e
+    rw [e', if_neg e]
+    congr 1
+    induction m with
+    | nil => rfl
+    | cons q t ih =>
+      rw [List.filter_cons]
+      by_cases hq : q.1 = a
+      · have h1 : (q.1 != a) = false := by simp [hq]
+        have h2 : (q.1 == a') = false := by rw [hq]; simpa using e
+        rw [h1, List.find?_cons, h2]
+        simpa using ih
+      · have h1 : (q.1 != a) = true := by simpa using hq
+        rw [h1]
+        simp only [if_true, List.find?_cons]
+        split
+        · rfl
+        · exact ih
+
+/-- one file of a discovery pass -/
+def notifyOne (cfg : Config) (acc : State × List Addr) (f : FileView) : State × List Addr :=
+  match matchFilename cfg f with
+  | none => acc
+  | some addr =>
+    match mapLookup acc.1.addressToFileMap addr with
+    | some existing =>
+      if existing != f.name then ({ acc.1 with addressToFileMap := mapSet acc.1.addressToFileMap addr f.name }, acc.2) else acc
+    | none =>
+      ({ acc.1 with addressToFileMap := mapSet acc.1.addressToFileMap addr f.name, addressList := acc.1.addressList ++ [addr] },
+       acc.2 ++ [addr])
+
+theorem notifyNewFiles_eq (cfg : Config) (st : State) (files : List FileView) :
+    notifyNewFiles cfg st files = files.foldl (notifyOne cfg) (st, []) := by
+  unfold notifyNewFiles
+  congr 1
+
+theorem notifyOne_inv (cfg : Config) (acc : State × List Addr) (f : FileView) (h : ListInv acc.1) :
+    ListInv (notifyOne cfg acc f).1 ∧
+    (∀ a, a ∈ acc.1.addressList → a ∈ (notifyOne cfg acc f).1.addressList) ∧
+    (∀ a, matchFilename cfg f = some a → a ∈ (notifyOne cfg acc f).1.addressList) ∧
+    (∀ a, a ∈ (notifyOne cfg acc f).1.addressList → a ∈ acc.1.addressList ∨ matchFilename cfg f = some a) := by
+  unfold notifyOne
+  cases hm : matchFilename cfg f with
+  | none => exact ⟨h, fun a ha => ha, (by intro a e; cases e), fun a ha => Or.inl ha⟩
+  | some addr =>
+    simp only []
+    cases hl : mapLookup acc.1.addressToFileMap addr with
+    | some existing =>
+      have hin : addr ∈ acc.1.addressList := (h.2 addr).mpr (by simp [hl])
+      simp only []
+      split
+      · refine ⟨⟨h.1, ?_⟩, fun a ha => ha, ?_, fun a ha => Or.inl ha⟩
+        · intro a
+          simp only []
+          rw [mapLookup_mapSet]
+          by_cases e : addr = a
+          · subst e; simp [hin]
+          · simp [e, h.2 a]
+        · intro a e; injection e with e; subst e; exact hin
+      · exact ⟨h, fun a ha => ha, (by intro a e; injection e with e; subst e; exact hin), fun a ha => Or.inl ha⟩
+    | none =>
+      have hnin : addr ∉ acc.1.addressList := fun hc => by
+        have := (h.2 addr).mp hc; simp [hl] at this
+      simp only []
+      refine ⟨⟨?_, ?_⟩, ?_, ?_, ?_⟩
+      · rw [List.nodup_append]
+        refine ⟨h.1, by simp, ?_⟩
+        intro x hx y hy e
+        simp only [List.mem_singleton] at hy
+        subst hy; subst e; exact hnin hx
+      · intro a
+        rw [mapLookup_mapSet]
+        by_cases e : addr = a
+        · subst e; simp
+        · have e' : a ≠ addr := fun x => e x.symm
+          simp [e, e', h.2 a]
+      · intro a ha; exact List.mem_append_left _ ha
+      · intro a e; injection e with e; subst e; simp
+      · intro a ha
+        rcases List.mem_append.mp ha with h' | h'
+        · exact Or.inl h'
+        · simp only [List.mem_singleton] at h'; subst h'; exact Or.inr rfl
+
+theorem fold_inv (cfg : Config) : ∀ (files : List FileView) (acc : State × List Addr), ListInv acc.1 →
+    ListInv (files.foldl (notifyOne cfg) acc).1 ∧
+    (∀ a, a ∈ acc.1.addressList → a ∈ (files.foldl (notifyOne cfg) acc).1.addressList) ∧
+    (∀ f ∈ files, ∀ a, matchFilename cfg f = some a → a ∈ (files.foldl (notifyOne cfg) acc).1.addressList) ∧
+    (∀ a, a ∈ (files.foldl (notifyOne cfg) acc).1.addressList → a ∈ acc.1.addressList ∨ ∃ f ∈ files, matchFilename cfg f = some a) := by
+  intro files
+  induction files with
+  | nil => intro acc h; exact ⟨h, fun a ha => ha, (by intro f hf; cases hf), fun a ha => Or.inl ha⟩
+  | cons f fs ih =>
+    intro acc h
+    obtain ⟨h1, h2, h3, h4⟩ := notifyOne_inv cfg acc f h
+    obtain ⟨i1, i2, i3, i4⟩ := ih (notifyOne cfg acc f) h1
+    simp only [List.foldl_cons]
+    refine ⟨i1, fun a ha => i2 a (h2 a ha), ?_, ?_⟩
+    · intro g hg a hm
+      rcases List.mem_cons.mp hg with rfl | hg
+      · exact i2 a (h3 a hm)
+      · exact i3 g hg a hm
+    · intro a ha
+      rcases i4 a ha with h' | ⟨g, hg, hm⟩
+      · rcases h4 a h' with h'' | h''
+        · exact Or.inl h''
+        · exact Or.inr ⟨f, by simp, h''⟩
+      · exact Or.inr ⟨g, by simp [hg], hm⟩
+
+/-- **The account list is exactly the set of addresses whose file names match the naming rule, without duplicates**:
+    after a discovery pass over `files` from the empty wallet, an address is listed iff some file of the pass
+    matches to it, and none is listed twice. (`matchFilename` is the configured rule: extension with / without 0x,
+    or the regular expression's capture, directories never.) -/
+theorem accounts_exact (cfg : Config) (files : List FileView) :
+    let st := (notifyNewFiles cfg State.init files).1
+    st.addressList.Nodup ∧ ∀ a, a ∈ st.addressList ↔ ∃ f ∈ files, matchFilename cfg f = some a := by
+  have hinit : ListInv State.init := ⟨by simp [State.init], by intro a; simp [State.init, mapLookup]⟩
+  obtain ⟨i1, _, i3, i4⟩ := fold_inv cfg files (State.init, []) hinit
+  rw [notifyNewFiles_eq]
+  refine ⟨i1.1, fun a => ⟨fun ha => ?_, fun ⟨f, hf, hm⟩ => i3 f hf a hm⟩⟩
+  rcases i4 a ha with h | h
+  · simp [State.init] at h
+  · exact h
+
+/-- later passes only add: nothing listed is dropped, and the list stays duplicate-free -/
+theorem accounts_monotone (cfg : Config) (st : State) (files : List FileView) (h : ListInv st) :
+    ListInv (notifyNewFiles cfg st files).1 ∧ ∀ a, a ∈ st.addressList → a ∈ (notifyNewFiles cfg st files).1.addressList := by
+  obtain ⟨i1, i2, _, _⟩ := fold_inv cfg files (st, []) h
+  rw [notifyNewFiles_eq]
+  exact ⟨i1, i2⟩
+
 end FFS.Props.C08
